@@ -43,6 +43,16 @@ Theorem C18_ignored_variant : forall (d : tdesc) (tv : tvalue) (vd : vdesc),
 Proof. exact Derive.C18_ignored_variant. Qed.
 Print Assumptions C18_ignored_variant.
 
+(** The generated [match] is exhaustive: if no arm matches the active variant then a variant
+    was dropped and the catch-all arm exists (so the "no arm => nothing traced" branch of the
+    model is the [_ => {}] arm of the code). *)
+Theorem C18_match_exhaustive : forall (d : tdesc) (i : nat) (vd : vdesc),
+  nth_error (variants d) i = Some vd ->
+  find (fun arm => fst arm =? i) (arms d) = None ->
+  omitted_variants d = true.
+Proof. exact Derive.catch_all_arm_present. Qed.
+Print Assumptions C18_match_exhaustive.
+
 Theorem C18_type_level_ignore_rejected : forall d : tdesc,
   a_ignore (type_attrs d) = true -> derive_accepts d = false.
 Proof. exact Derive.C18_type_level_ignore_rejected. Qed.
